@@ -12,6 +12,7 @@ from .. import shapes as S
 from ..core import fmt_list, parse_ints, frac, err_kind
 
 ID = "C10"
+THREADS = True       # part of the cases run concurrently in threads of one interpreter (the schedule dimension)
 MODULES = ["TWV.Properties.C10"]
 RULE = ("exhaustive lattice: every strictly increasing array of <=4 (thorough <=5) elements over {-2..2} ({-2..3}) with "
         "every sorted query multiset of <=3 (<=4) values on the half-integer lattice, all five strategy/fill variants; "
@@ -96,6 +97,25 @@ def _long_cases(rng, n):
                "float": True, "long": True}
 
 
+def _alias_cases(rng, n):
+    """array and queries are two views of ONE buffer: the series matched against its own grid (same object, a plain
+    view), against itself shifted by k samples (two overlapping windows of a longer buffer), every second sample"""
+    for _ in range(n):
+        m = rng.randint(3, 14)
+        t = sorted({rng.choice([float(rng.randint(-20, 20)), rng.uniform(-50, 50)]) for _ in range(m + 4)})
+        kind = rng.choice(["same", "view", "shift", "shift", "stride"])
+        k = rng.randint(1, 3)
+        s, f = rng.choice(VARIANTS)
+        if kind in ("same", "view"):
+            xs, qs = t, t
+        elif kind == "shift":
+            xs, qs = t[:-k], t[k:]
+        else:
+            xs, qs = t[:-2:2], t[2::2]
+        yield {"x": [str(Fraction(v)) for v in xs], "q": [str(Fraction(v)) for v in qs], "s": s, "fill": f, "float": True,
+               "alias": kind, "k": k, "t": [str(Fraction(v)) for v in t], "layout": "contig,contig,contig", "hist": "none"}
+
+
 def _malformed(rng, n):
     for _ in range(n):
         xs = sorted({rng.randint(-5, 5) for _ in range(rng.randint(0, 4))})
@@ -117,16 +137,19 @@ def _malformed(rng, n):
 def cases(rng, tier):
     if tier == "quick":
         yield from _long_cases(rng, 60)
+        yield from _alias_cases(rng, 150)
         yield from _lattice_cases(4, 4, 3)
         yield from _float_cases(rng, 2000)
         yield from _malformed(rng, 300)
     elif tier == "thorough":
         yield from _long_cases(rng, 600)
+        yield from _alias_cases(rng, 2000)
         yield from _lattice_cases(5, 5, 4)
         yield from _float_cases(rng, 20000)
         yield from _malformed(rng, 2000)
     else:  # search
         yield from _long_cases(rng, 40)
+        yield from _alias_cases(rng, 100)
         yield from _float_cases(rng, 1500)
         yield from _lattice_cases(3, 3, 2)
         yield from _malformed(rng, 100)
@@ -147,6 +170,12 @@ def run_impl(c):
     x, q = _vals(c)
     xa = S.arr([float(v) for v in x], dtype=float)
     qa = S.arr([float(v) for v in q], dtype=float)
+    if c.get("alias"):
+        t = np.array([float(Fraction(v)) for v in c["t"]], dtype=float)
+        k = c["k"]
+        xa, qa = {"same": lambda: (t, t), "view": lambda: (t, t.view()), "shift": lambda: (t[:-k], t[k:]),
+                  "stride": lambda: (t[:-2:2], t[2::2])}[c["alias"]]()
+        assert [float(v) for v in xa] == [float(v) for v in x] and [float(v) for v in qa] == [float(v) for v in q]
     try:
         r = sau.find_closest_element_indices_to_values(xa, qa, strategy=c["s"], fill_not_valid=c["fill"])
         return {"ok": [int(v) for v in r]}
